@@ -235,7 +235,9 @@ def sx_min(*a, **kw):
     r = a[0]
     for b in a[1:]:
         if _kind(b) == _kind(r) == 'i':
-            r = T.imin(r, b) if False else _pick(b < r, r, b)
+            r = T.imin(r, b)              # range-aware: min(max_code, x) is x itself when x.hi <= max_code
+        elif _kind(b) == _kind(r) == 'f':
+            r = T.fmin(r, b)
         else:
             r = _pick(b < r, r, b)
     return r
@@ -250,7 +252,12 @@ def sx_max(*a, **kw):
         return builtins.max(*a) if len(a) > 1 else a[0]
     r = a[0]
     for b in a[1:]:
-        r = _pick(b > r, r, b)
+        if _kind(b) == _kind(r) == 'i':
+            r = T.imax(r, b)
+        elif _kind(b) == _kind(r) == 'f':
+            r = T.fmax(r, b)
+        else:
+            r = _pick(b > r, r, b)
     return r
 
 
